@@ -13,6 +13,8 @@ EXTENDS Parser
 \* [ok, ext, c, st]: ok = the prefix is a line the parser is still happily consuming
 \* `via` collects how the parser descended: "flagsub" (short/long flag subcommand), "infer" (a prefix of a
 \* subcommand name under infer_subcommands) - used to name recorded witness classes
+\* a multi-value positional that is not the last one (parser.rs "low index multiples")
+LowIndexShapeP(c) == LET ps == Positionals(c) IN \E k \in 1..Len(ps) : IsMultiple(ps[k]) /\ ps[k].idx # Len(ps)
 RECURSIVE PrefixLevelV(_, _, _, _, _, _, _)
 PrefixLevelV(c, argv, start, cur, fsat, fsskip, via) ==
   LET lr == Loop(c, InitState(cur, fsat, fsskip), argv, start) IN
@@ -25,6 +27,7 @@ PrefixLevelV(c, argv, start, cur, fsat, fsskip, via) ==
              tok == argv[lr.x.i]
              how == (IF FindSubcommand(c, tok) # 0 THEN {} ELSE IF IsSome(PA_ToLong(tok)) \/ IsSome(PA_ToShort(tok)) THEN {"flagsub"} ELSE {"infer"})
                     \cup (IF st.ps.k # "done" THEN {"precedence"} ELSE {})
+                    \cup (IF LowIndexShapeP(c) /\ st.pos > 1 THEN {"lowindex"} ELSE {})
          IN IF (Set(c, "args_conflicts_with_subcommands") /\ st.valid) \/ si = 0 \/ SubView(c)[si].auto
             THEN [ok |-> FALSE, ext |-> FALSE, c |-> c, st |-> st, via |-> via]
             ELSE LET child == Build(c.subs[SubView(c)[si].i], c.childInh) IN
@@ -37,7 +40,10 @@ PrefixLevel(c, argv, start, cur, fsat, fsskip) == PrefixLevelV(c, argv, start, c
 \* (a positional that accepts hyphen values and is still collecting swallows every further token, flags included)
 \* "before any `--`" is read literally as well: a bare `--` among the preceding words switches the requirement off even
 \* where the parser consumed it as a hyphen value of a pending option (the engine takes every bare `--` for the escape)
-NewArgMayStart(p, before) == /\ p.ok /\ ~p.ext /\ p.st.ps.k # "opt" /\ ~p.st.trailing /\ ~PsArgHyphen(p.c, p.st)
+\* A positional that still lacks values it must have (num_args(2) after one value) awaits a value just as an option does:
+\* a new argument there can only end in WrongNumberOfValues, and the engine rightly completes the value
+PosAwaitsValue(c, st) == st.ps.k = "pos" /\ st.pend.set /\ st.pend.id = st.ps.id /\ HasArg(c, st.ps.id) /\ Len(st.pend.vals) < ArgOf(c, st.ps.id).nmin
+NewArgMayStart(p, before) == /\ p.ok /\ ~p.ext /\ p.st.ps.k # "opt" /\ ~p.st.trailing /\ ~PsArgHyphen(p.c, p.st) /\ ~PosAwaitsValue(p.c, p.st)
                              /\ \A k \in 1..Len(before) : before[k] # <<45, 45>>
 
 \* ---- spellings that extend the word under the cursor ---------------------------
@@ -98,6 +104,7 @@ DeclaredHidden(c, cand) ==
 HiddenOnlyIfNothingVisible(c, cands) ==
   (\E i \in 1..Len(cands) : ~DeclaredHidden(c, cands[i])) => \A i \in 1..Len(cands) : ~DeclaredHidden(c, cands[i])
 
+LowIndexShape(c) == LowIndexShapeP(c)
 \* ---- C18 on one observation: obs = [panicked, err, cands] ------------------------------------------
 P18(def, words, i, obs) ==
   LET c0 == Build(def, NoInherit)
